@@ -109,7 +109,7 @@ def run_env(spec):
 # ---------------------------------------------------------------------------
 # replay files
 def parse_replay(path):
-    d = dict(harness=None, params={}, tape=[], enumerating=False, comments=[])
+    d = dict(harness=None, params={}, tape=[], enumerating=False, comments=[], extra=[])
     for line in open(path):
         line = line.rstrip('\n')
         if line.startswith('#'):
@@ -127,6 +127,8 @@ def parse_replay(path):
             d['enumerating'] = True
         elif p[0] == 'tape':
             d['tape'] = [int(x) for x in p[2:2 + int(p[1])]]
+        else:
+            d['extra'].append(line)  # payload of non-tape harnesses (e.g. the AST of a generated program)
     return d
 
 
@@ -138,7 +140,11 @@ def write_replay(path, d, extra_comments=()):
             f.write('param %s=%s\n' % (k, d['params'][k]))
         if d['enumerating']:
             f.write('enumerating 1\n')
-        f.write('tape %d %s\n' % (len(d['tape']), ' '.join(map(str, d['tape']))))
+        if d.get('extra'):
+            for line in d['extra']:
+                f.write(line + '\n')
+        else:
+            f.write('tape %d %s\n' % (len(d['tape']), ' '.join(map(str, d['tape']))))
         for c in list(d['comments'])[1:] + list(extra_comments):
             f.write(c if c.startswith('#') else '# ' + c)
             f.write('\n')
@@ -148,7 +154,7 @@ def replay_once(exe, spec, path, timeout=60, want_kind=False):
     """returns (failed, output[, kind]) with kind in pass / fail / hang / died"""
     try:
         if spec.get('kind') == 'script':
-            cmd = [spec.get('interp', 'python3'), exe, 'replay', path]
+            cmd = [spec.get('interp', 'python3'), exe, 'replay', path, '--repo', REPO]
         else:
             cmd = [exe, 'replay', path, '--watchdog', '1']
         r = subprocess.run(cmd, stdout=subprocess.PIPE, stderr=subprocess.STDOUT, text=True, timeout=timeout,
@@ -366,7 +372,7 @@ def handle_failure(pid, j, workdir):
             pass
         raise HarnessError('worker exited %s without a failure or crash file: %s\n%s' % (j.get('rc'), ' '.join(j['cmd']), tail))
     os.makedirs(os.path.join(REPLAYS, pid), exist_ok=True)
-    key = hashlib.sha1(('%s|%s|%s' % (d['harness'], sorted(d['params'].items()), d['tape'])).encode()).hexdigest()[:12]
+    key = hashlib.sha1(('%s|%s|%s|%s' % (d['harness'], sorted(d['params'].items()), d['tape'], d.get('extra'))).encode()).hexdigest()[:12]
     path = os.path.join(REPLAYS, pid, key + '.case')
     tmp = os.path.join(workdir, 'confirm.case')
     write_replay(tmp, d)
